@@ -262,6 +262,10 @@ func (v *fnVC) applyCall(c *ssa.CallCommon, x *ssa.Call, pos token.Pos, cond T) 
 				refArg = true
 			}
 		}
+		if refArg && v.con != nil && v.con.DynPure {
+			refArg = false
+			v.notes = append(v.notes, "assume (dynpure): the callbacks this function calls ("+c.Value.Name()+") do not modify library state")
+		}
 		if refArg {
 			if _, claimed := v.frameAlts("0"); claimed {
 				v.oblige("frame.call", "dynamic call of "+c.Value.Name()+" with reference arguments", "false", pos)
